@@ -7,6 +7,10 @@ LEVEL_NOTE = ("float64 read as exact reals (no NaN/Inf/rounding), integers mathe
               "every remaining assumption is listed in the evidence file's 'assumptions'.")
 
 claimed = {
+ "C01": dict(
+   text="Deductive proof, per constructor, of the induction step of 'every expression tree has an enclosing box': with abstract operands assumed only to have an ordered box enclosing their solid (plus the stated Chebyshev lower bound for Offset/Shell/rounded extrusions), the box stored by the real constructor is ordered and contains every point where the real Evaluate of the result is negative, for all parameters and all points. Constructors not yet under contract (unions, arrays, rotate-unions, screw, text, obj parts, cams, gears) are listed in the evidence as not_decided.",
+   design_ref="8.1",
+   technique="contract-based deductive verification: constructor and Evaluate executed symbolically from go/ssa with uninterpreted operands, quantified operand assumptions instantiated at evaluation points, proof scripts (assert/use/generalize), SMT (QF_NRA)"),
  "C02": dict(
    text="Deductive proof per combinator that the real Evaluate/constructor code denotes the named operation, for all parameters and points: blend functions (RoundMin, ChamferMin, ExpMin, PolyMin/PolyMax) never remove material, are symmetric and obey the k/4 fillet bound; M22/M33/M44.Inverse are two-sided inverses; rotation constructors are rigid. Scope grows with the contract file; sentences not under contract are listed in the evidence as not_decided.",
    design_ref="8.2",
